@@ -97,12 +97,12 @@ def family(tier):
         osbound=3)
     add("oneshot_rpc", "ab", "(deflayer l0 (one-shot-release-pcancel 3 S-lalt) y)", qmax=3, osbound=3, quick=False)
     add("tapdance", "ab", "(deflayer l0 (tap-dance 3 (x S-y lctl)) z)", qmax=3, quick=False)
-    add("chordv1", "abc", "(defchords g 3 (a) x (b) y (a b) S-z (a b c) lctl (c) w)\n"
-                          "(deflayer l0 (chord g a) (chord g b) (chord g c))", qmax=3, quick=False)
+    add("chordv1", "abc", "(defchords g 3 (a) x (b) y (a b) S-z)\n"
+                          "(deflayer l0 (chord g a) (chord g b) lctl)", qmax=2, quick=False)
     add("macro", "ab", "(deflayer l0 (macro S-(x 1 y)) (macro C-x))", qmax=2, seqbound=2)
     add("macro_repeat", "ab", "(deflayer l0 (macro-repeat S-x 1) y)", qmax=2, seqbound=2, quick=False)
     add("fork_switch", "abc", "(deflayer l0 lsft (fork x (multi lctl y) (lsft)) "
-                              "(switch (lsft) z break ((not lsft)) (multi lalt w) break))", qmax=3)
+                              "(switch (lsft) z break ((not lsft)) (multi lalt w) break))", qmax=2, track_hist=False)
     add("overrides", "abc", "(defoverrides (lsft a) (x) (lsft lctl a) (lalt y))\n(deflayer l0 lsft a lctl)", qmax=3)
     add("vkeys_balanced", "ab", "(defvirtualkeys v (multi lctl (layer-while-held l1)))\n"
                                 "(deflayer l0 (multi (on-press press-vkey v) (on-release release-vkey v)) x)\n"
@@ -131,6 +131,10 @@ def family(tier):
     add("macro_x_vkey", "ab", "(defvirtualkeys v (multi lsft (layer-while-held l1)))\n"
                               "(deflayer l0 (macro (on-press press-vkey v) x 1 (on-press release-vkey v)) y)\n"
                               "(deflayer l1 _ z)", qmax=2, seqbound=2, quick=False)
+    add("custom_x_taphold", "ab", "(deflayer l0 (multi mlft (tap-hold 0 3 x mrgt)) y)", qmax=2)
+    add("custom_x_chordv1", "ab", "(defchords g 3 (a) mrgt (b) x (a b) mlft)\n(deflayer l0 (chord g a) (chord g b))",
+        qmax=3, quick=False)
+    add("macro_ring", "a", "(deflayer l0 (macro S-(x 12 y)))", qmax=2, quick=False)
     add("holdfor_x_oneshot", "ab", "(defvirtualkeys v (one-shot 2 lsft))\n(deflayer l0 (hold-for-duration 3 v) x)",
         qmax=3, osbound=3, quick=False)
     return F
@@ -142,7 +146,9 @@ def mc_part(res, tier, wd, rng):
         keys = [cfgdesc.code(k) for k in keynames]
         params = text_params(kbd)
         inst = {"name": "c01_" + name, "kbd": kbd, "keys": keys, "qmax": io.get("qmax", 3),
-                "monitor": {"module": MON, "params": params}}
+                "monitor": {"module": MON, "params": params}, "invariants": []}
+        if "track_hist" in io:      # switch on held keys only: the key history need not be in the model state
+            inst["track_hist"] = io["track_hist"]
         if io.get("custom_th"):
             inst["custom_th"] = io["custom_th"]
         if io.get("seqbound"):
@@ -157,7 +163,7 @@ def mc_part(res, tier, wd, rng):
             inst["constraint"] = "OsBound"
             inst["extra_defs"] = ("OsBound == Len(K.L.os.keys) <= %d /\\ Len(K.L.os.other) <= %d /\\ "
                                   "Len(K.L.os.released) <= %d" % (b, b, b))
-        r = mc.check_instance(inst, wd, workers=8, timeout=1500)
+        r = mc.check_instance(inst, wd, workers=8, timeout=int(os.environ.get('C01_TLC_TIMEOUT', '1500')))
         res.add_instance(r)
         log("[C01] %-22s states=%s edges=%s drift=%s monerr=%s panic=%s tlc=%ss wall=%ss bound=%d" % (
             name, r["states"], r.get("edges"), r.get("drift"), r["n_monerr"], r["n_panic"], r["tlc_wall_s"],
@@ -173,9 +179,472 @@ def mc_part(res, tier, wd, rng):
     return witness_jobs
 
 
+
+
+# ------------------------------------------------------------------ recording + validation (binding C)
+RAW_BASE = 100000      # an arbitrary raw code n is rendered as key RAW_BASE + n
+NAME_BASE = 200000     # a key whose name the harness could not resolve
+
+
+def prep_trace(src, dst, stats):
+    """Pre-processor of recorded traces for P_C01: keys become numbers (see the module comment of P_C01.tla);
+    counts the soft observations (R1 redundant releases, continuous scroll / mouse-move events)."""
+    names = {}
+
+    def conv(ev, down, bdown):
+        k = ev[0]
+        if k == "code":
+            m = re.match(r"(\d+);(\w+)", str(ev[1]))
+            if m and m.group(2) == "Press":
+                ev = ["d", RAW_BASE + int(m.group(1))]
+            elif m and m.group(2) == "Release":
+                ev = ["u", RAW_BASE + int(m.group(1))]
+            k = ev[0]
+        if k in ("d", "u") and not isinstance(ev[1], int):
+            ev = [k, names.setdefault(str(ev[1]), NAME_BASE + len(names))]
+        if k == "d":
+            down.add(ev[1])
+        elif k == "u":
+            if ev[1] not in down:
+                stats["r1_redundant_releases"] += 1
+            down.discard(ev[1])
+        elif k == "bd":
+            bdown.add(ev[1])
+        elif k == "bu":
+            if ev[1] not in bdown:
+                stats["r1_redundant_releases"] += 1
+            bdown.discard(ev[1])
+        elif k in ("sc", "mv"):
+            stats["continuous_events"] += 1
+        return ev
+
+    down, bdown = set(), set()
+    with open(src) as f, open(dst, "w") as g:
+        for line in f:
+            r = json.loads(line)
+            if r["e"] == "reset":
+                down, bdown = set(), set()
+            if r.get("out"):
+                r["out"] = [conv(e, down, bdown) for e in r["out"]]
+                line = json.dumps(r) + "\n"
+            if r["e"] == "t":
+                stats["ticks"] += r.get("n", 1)
+            g.write(line)
+    return dst
+
+
+def new_stats():
+    return {"r1_redundant_releases": 0, "continuous_events": 0, "ticks": 0, "scripts": 0, "panics_in_code": 0,
+            "errors_from_code": 0}
+
+
+def record(res, jobs, wd, name, stats):
+    """runs the jobs on the real code, pre-processes and validates the trace with P_C01 (TLC); returns the
+    rejections [{job, script, line, err}] that are about C01 (panics / harness-level errors are counted: a panic
+    is C02's subject, the run simply ends there)"""
+    jobs = shard_local_index(jobs)
+    outs = run_jobs(jobs, wd, name, timeout=3000)
+    raw = concat_traces(outs, os.path.join(wd, name + ".raw.ndjson"))
+    trace = prep_trace(raw, os.path.join(wd, name + ".trace.ndjson"), stats)
+    nlines, errs = validate_trace(MON, trace, wd, timeout=3000)
+    res.traces_validated += len(jobs)
+    res.trace_lines += nlines
+    stats["scripts"] += len(jobs)
+    keep = []
+    for e in errs:
+        if e["err"].startswith("panic in the code under test"):
+            stats["panics_in_code"] += 1
+        elif e["err"].startswith("error from the code under test"):
+            stats["errors_from_code"] += 1
+        else:
+            keep.append(e)
+    return jobs, keep
+
+
+def max_run(script):
+    """longest run of input events without a tick"""
+    m = c = 0
+    for x in script:
+        if x[0] == "t":
+            c = 0
+        else:
+            c += 1
+            m = max(m, c)
+    return m
+
+
+def diagnose(job, script, wd):
+    """State-level diagnosis of a rejection (the script is run again with the state projection).  The tag is part
+    of the finding signature:
+      macro ring       at the end a FakeKey state (a key pressed by a macro) is left while no macro cursor is active,
+                       and the 4-slot ring of macro cursors was full at some moment of the run
+      chords v2 flood  the configuration has defchordsv2 and the history has more than 16 events between two ticks
+      twin customs     two Custom-action states created at the same coordinate were removed by one release
+      queue overflow   a Custom-action state disappeared while an *input* was handed over (not during a tick):
+                       the 32-slot queue overflowed and Layout::event processed the evicted release itself
+      otherwise        a summary of the end state (no known finding matches it)"""
+    j = dict(job)
+    j["scripts"] = [script]
+    j["opts"] = dict(job.get("opts", {}), proj=True, cap=60000)
+    j["tag"] = "diag"
+    outs = run_jobs([j], wd, "c01_diag")
+    max_nseq, last, cu_lost, cu_twin = 0, None, 0, 0
+    for rc, jf, of, pj, so in outs:
+        for line in open(of):
+            r = json.loads(line)
+            if "proj" not in r:
+                continue
+            p = r["proj"]
+            max_nseq = max(max_nseq, p["nseq"])
+            if last is not None:
+                before = sorted(tuple(x) for x in last["st"] if x[0] == "cu")
+                after = sorted(tuple(x) for x in p["st"] if x[0] == "cu")
+                gone = [x for x in set(before) if x not in after]
+                if gone and r["e"] in ("d", "u", "r", "p"):
+                    cu_lost += 1
+                if any(before.count(x) > 1 for x in gone):
+                    cu_twin += 1
+            last = p
+    if last is None:
+        return "no-state"
+    kinds = sorted(set(s[0] for s in last["st"]))
+    fk = [s[1] for s in last["st"] if s[0] == "fk"]
+    run = max_run(script)
+    if fk and last["nseq"] == 0 and max_nseq >= 4:
+        return "macro ring: %d key(s) pressed by a macro left with no active macro after the 4-slot ring was full" % len(fk)
+    if "(defchordsv2" in job["cfg"] and run > 16:
+        return "chords v2 flood: more than 16 events between two ticks (%d)" % run
+    if cu_twin:
+        return ("two custom-action states on one coordinate released together (%d time(s)): only the first release "
+                "handler runs" % cu_twin)
+    if cu_lost and run > 32:
+        return "queue overflow: custom action released inside Layout::event (%d time(s)), its release handler never runs" % cu_lost
+    return "end-state kinds=%s nseq=%d max_nseq=%d longest no-tick run=%d" % (",".join(kinds), last["nseq"], max_nseq, run)
+
+
+def cfg_shape(kbd):
+    """coarse shape of a configuration (which action families it uses) - part of the finding signature"""
+    fams = []
+    for fam, rx in (("macro", r"\(macro"), ("tap-hold", r"\(tap-hold"), ("one-shot", r"\(one-shot"), ("tap-dance", r"\(tap-dance"),
+                    ("chords", r"\(defchords "), ("chordsv2", r"\(defchordsv2"), ("vkey", r"\(def(virtual|fake)keys"),
+                    ("seq", r"\(defseq"), ("zippy", r"\(defzippy"), ("dynmacro", r"dynamic-macro")):
+        if re.search(rx, kbd):
+            fams.append(fam)
+    return "+".join(fams) or "plain"
+
+
+def handle_errs(res, jobs, errs, label, wd):
+    for e in errs:
+        j, s = script_of(jobs, e["job"], 0)
+        tag = " [" + diagnose(j, s, wd) + "; cfg shape " + cfg_shape(j["cfg"]) + "]"
+        short = re.sub(r": \{.*$", "", e["err"])        # the rule without the key set
+        text = short + tag + " || " + e["err"] + " source=" + label + " cfg=" + j["cfg"]
+        obj = {"kind": "c01", "property": PID, "cfg": j["cfg"], "params": j["params"], "script": s, "err": e["err"],
+               "monitor": MON, "files": j.get("files", {}), "diagnosis": tag.strip()}
+        if flow.classify(res, PID, e["err"], text, obj, "%s_%d" % (label.replace(":", "_"), len(res.violations))):
+            log("[C01] REJECTED (%s): %s%s" % (label, e["err"], tag))
+
+
+def replay(r, path, wd):
+    """./check replay <file> for kind c01: re-run on the current tree, re-validate with P_C01"""
+    job = {"cfg": r["cfg"], "params": r["params"], "tag": "replay", "scripts": [r["script"]], "files": r.get("files", {})}
+    res = flow.Result(PID, "replay", 0)
+    st = new_stats()
+    jobs, errs = record(res, [job], wd, "replay_c01", st)
+    for line in open(os.path.join(wd, "replay_c01.trace.ndjson")):
+        print(line.rstrip()[:300])
+    for e in errs:
+        print("REJECTED at line %s: %s" % (e["line"], e["err"]))
+    if errs:
+        print("VIOLATION property=%s replay=%s" % (PID, path))
+        return 1
+    print("accepted by %s" % MON)
+    return 0
+
+
+# ------------------------------------------------------------------ (b) bursts with the real capacities
+def release_all(s, down, rng, gap=1):
+    ks = sorted(down)
+    rng.shuffle(ks)
+    for k in ks:
+        s.append(["u", k])
+        if gap:
+            s.append(["t", gap])
+    down.clear()
+
+
+def consistent_burst(rng, codes, m, down, s):
+    """m physically consistent events without a tick"""
+    for _ in range(m):
+        c = rng.choice(codes)
+        if c in down:
+            s.append(["u", c])
+            down.discard(c)
+        else:
+            s.append(["d", c])
+            down.add(c)
+
+
+def all_key_codes():
+    kt = cfgdesc.keytable()["names"]
+    skip = {"mlft", "mrgt", "mmid", "mbck", "mfwd", "mwu", "mwd", "mwl", "mwr"}
+    return sorted(set(v for k, v in kt.items() if k not in skip))
+
+
+def burst_jobs(tier, rng):
+    C = cfgdesc.code
+    n = 4 if tier == "quick" else 40
+    jobs = []
+
+    def job(tag, kbd, scripts):
+        p = text_params(kbd)
+        B = bound_of(p)
+        for s in scripts:
+            s.append(["t", B + 30])
+        jobs.append({"cfg": kbd, "params": p, "tag": "burst:" + tag, "scripts": scripts})
+
+    # ---- 33-40 events without a tick: the 32-slot event queue wraps (waiting keys are forced into hold)
+    for conc in ("no", "yes"):
+        kbd = ("(defcfg concurrent-tap-hold %s process-unmapped-keys yes)\n(defsrc a b c d e f g h i j k l)\n"
+               "(deflayer l0 (tap-hold 200 200 a lsft) (tap-hold-press 200 200 b lctl) (tap-hold-release 200 150 c lalt) "
+               "(one-shot 300 rsft) (layer-while-held l1) (tap-dance 150 (x y z)) (macro S-(m 10 n)) (multi lmet f13) i j k l)\n"
+               "(deflayer l1 1 2 3 4 _ 5 6 7 8 9 0 _)\n" % conc)
+        codes = [C(k) for k in "abcdefghijkl"] + [C("q"), C("w")]
+        scripts = []
+        for _ in range(n):
+            s, down = [], set()
+            for _ in range(rng.randint(1, 3)):
+                if rng.random() < 0.5:
+                    s += [["d", codes[rng.randrange(3)]]]
+                    down.add(s[-1][1])
+                    s.append(["t", rng.choice([1, 2, 50])])
+                consistent_burst(rng, codes, rng.randint(33, 40), down, s)
+                s.append(["t", rng.choice([1, 3, 40, 250])])
+            release_all(s, down, rng, rng.choice([0, 1]))
+            scripts.append(s)
+        job("queue_wrap_conc_" + conc, kbd, scripts)
+    # ---- 65+ simultaneously active states (process-unmapped-keys yes): the 64-entry state vector is full
+    kbd = ("(defcfg process-unmapped-keys yes)\n(defsrc a b c d)\n"
+           "(deflayer l0 (multi lsft lctl lalt) (layer-while-held l1) (multi mlft (unicode r)) d)\n(deflayer l1 _ _ _ (multi rsft rctl))\n")
+    allc = all_key_codes()
+    scripts = []
+    for _ in range(n):
+        s, down = [], set()
+        ks = list(allc)
+        rng.shuffle(ks)
+        special = [C("a"), C("b"), C("c"), C("d")]
+        ks = [k for k in ks if k not in special]
+        m = rng.randint(62, 70)
+        order = ks[:m]
+        for sp in special:
+            order.insert(rng.randint(0, len(order)), sp)
+        for k in order:
+            s.append(["d", k])
+            down.add(k)
+            s.append(["t", rng.choice([1, 1, 2])])
+        s.append(["t", rng.choice([1, 30])])
+        release_all(s, down, rng, rng.choice([0, 1]))
+        scripts.append(s)
+    job("states_full", kbd, scripts)
+    # ---- 9-10 concurrent tap-holds: the 8-slot extra_waiting ring wraps
+    mods = ["lsft", "lctl", "lalt", "lmet", "rsft", "rctl", "ralt", "rmet", "f13", "f14"]
+    outs = "qwertyuiop"
+    for T in (300, 40):
+        kbd = ("(defcfg concurrent-tap-hold yes)\n(defsrc a b c d e f g h i j)\n(deflayer l0 %s)\n" %
+               " ".join("(tap-hold 0 %d %s %s)" % (T + 3 * i, outs[i], mods[i]) for i in range(10)))
+        codes = [C(k) for k in "abcdefghij"]
+        scripts = []
+        for _ in range(n):
+            s, down = [], set()
+            ks = list(codes)
+            rng.shuffle(ks)
+            for k in ks[:rng.randint(9, 10)]:
+                s.append(["d", k])
+                down.add(k)
+                s.append(["t", rng.choice([0, 1, 1, 2])] if rng.random() < 0.8 else ["t", 1])
+            s = [x for x in s if x != ["t", 0]]
+            s.append(["t", rng.choice([1, 10, T - 5, T + 50])])
+            release_all(s, down, rng, rng.choice([0, 1, 3]))
+            scripts.append(s)
+        job("taphold_ring_T%d" % T, kbd, scripts)
+    # ---- 17-18 one-shots: the 16-entry one-shot ring overflows
+    oskeys = "abcdefghijklmnopqr"
+    osouts = ["lsft", "lctl", "lalt", "lmet", "rsft", "rctl", "ralt", "rmet", "x", "y", "z", "1", "2", "3", "4", "5", "6", "7"]
+    for var in ("one-shot", "one-shot-release", "one-shot-press-pcancel"):
+        kbd = ("(defsrc %s s)\n(deflayer l0 %s s)\n" % (
+            " ".join(oskeys), " ".join("(%s 400 %s)" % (var, o) for o in osouts)))
+        codes = [C(k) for k in oskeys]
+        scripts = []
+        for i in range(n):
+            s, down = [], set()
+            if i % 2 == 0:       # 17-18 different one-shot keys
+                ks = list(codes)
+                rng.shuffle(ks)
+                for k in ks[:rng.randint(17, 18)]:
+                    s += [["d", k], ["t", rng.choice([1, 2])], ["u", k], ["t", rng.choice([1, 2])]]
+            else:                # the same key tapped 17-20 times
+                k = rng.choice(codes)
+                for _ in range(rng.randint(17, 20)):
+                    s += [["d", k], ["t", 1], ["u", k], ["t", 1]]
+            if rng.random() < 0.6:
+                s += [["d", C("s")], ["t", 3], ["u", C("s")], ["t", 1]]
+            scripts.append(s)
+        job("oneshot_ring_" + var, kbd, scripts)
+    # ---- 4 / 5 / 6 overlapping macros: the 4-slot ring of macro cursors
+    pre = ["S-", "C-", "A-", "M-", "RS-", "RC-"]
+    kbd = ("(defsrc a b c d e f)\n(deflayer l0 %s)\n" %
+           " ".join("(macro %s(%s 50 %s))" % (pre[i], "qwerty"[i], "uiopkl"[i]) for i in range(6)))
+    codes = [C(k) for k in "abcdef"]
+    scripts = []
+    for m in (4, 5, 6):
+        for _ in range(max(1, n // 2)):
+            s, down = [], set()
+            ks = list(codes)
+            rng.shuffle(ks)
+            for k in ks[:m]:
+                s += [["d", k], ["t", rng.choice([1, 2, 5])]]
+                down.add(k)
+            release_all(s, down, rng, 1)
+            scripts.append(s)
+    job("macros_overlapping", kbd, scripts)
+    return jobs
+
+
+# ------------------------------------------------------------------ (c) features L1 does not model + random grammar
+def extra_feature_jobs(tier, rng):
+    """hand-written latch-free configurations for the features the detailed model does not cover; random
+    physically consistent histories (recorded traces only)"""
+    C = cfgdesc.code
+    X = []
+    X.append(("chordsv2", "(defcfg concurrent-tap-hold yes chords-v2-min-idle 20)\n(defsrc a b c d)\n"
+              "(deflayer l0 a b (tap-hold 100 100 c lsft) d)\n"
+              "(defchordsv2 (a b) x 50 all-released () (a b c) S-y 80 first-release () (c d) (one-shot 100 lctl) 60 all-released ()"
+              " (a d) (macro z 10 S-w) 40 first-release ())\n", "abcd", {}))
+    for mode in ("visible-backspaced", "hidden-suppressed", "hidden-delay-type"):
+        X.append(("defseq_" + mode, "(defcfg sequence-timeout 50 sequence-input-mode %s)\n(defsrc a b c d e)\n"
+                  "(deflayer l0 sldr a b (multi lsft c) (sequence 30 hidden-delay-type))\n"
+                  "(defvirtualkeys v1 S-x v2 (macro y 5 z) v3 (one-shot 40 lctl))\n"
+                  "(defseq v1 (a b) v2 (b S-c) v3 (O-(a b c)))\n" % mode, "abcde", {}))
+    X.append(("zippychord", "(defsrc a b c d spc lsft)\n(deflayer l0 a b c d spc lsft)\n"
+              "(defzippy dict on-first-press-chord-deadline 40 idle-reactivate-time 60 smart-space full)\n",
+              ["a", "b", "c", "d", "spc", "lsft"], {"dict": "ab\tAbba\nab cd\tlonger\nbc\tbook \nabc\tAlphabet\n"}))
+    X.append(("capsword", "(defsrc a b c d e)\n(deflayer l0 (caps-word 60) a (caps-word-toggle 40) 1 (multi lsft b))\n", "abcde", {}))
+    X.append(("unmod", "(defsrc a b c d)\n(deflayer l0 lsft (unmod a) (unshift 1) (multi lctl (unmod (lctl) b)))\n", "abcd", {}))
+    X.append(("mouse", "(defcfg movemouse-smooth-diagonals yes movemouse-inherit-accel-state yes)\n(defsrc a b c d e f g)\n"
+              "(deflayer l0 (mwheel-up 5 120) (movemouse-left 3 2) (movemouse-accel-up 2 20 1 5) (movemouse-speed 200) "
+              "(mwheel-right 7 30) (multi mlft (movemouse-accel-right 3 10 2 9)) (macro (mwheel-down 4 120) 10 mrtp))\n", "abcdefg", {}))
+    X.append(("dynmacro", "(defcfg dynamic-macro-max-presses 20)\n(defsrc a b c d e)\n"
+              "(deflayer l0 (dynamic-macro-record 1) (dynamic-macro-play 1) dynamic-macro-record-stop (multi lsft x) y)\n", "abcde", {}))
+    X.append(("arbitrary_code", "(defsrc a b c)\n(deflayer l0 (arbitrary-code 700) (multi (arbitrary-code 30) lsft) "
+              "(tap-hold 50 50 (arbitrary-code 255) lctl))\n", "abc", {}))
+    jobs = []
+    ns = 6 if tier == "quick" else 60
+    for name, kbd, keys, files in X:
+        codes = [C(k) for k in keys]
+        scripts = []
+        dur = 0
+        nums = [int(t) for t in tokens(kbd) if re.fullmatch(r"\d+", t)]
+        for _ in range(ns):
+            s = cfggen.gen_history(rng, codes, rng.choice([10, 30, 80] if tier == "quick" else [10, 30, 80, 300]), False,
+                                   numbers=nums, floods=rng.random() < 0.2, long_gaps=False, focus=codes, tail=0)
+            scripts.append(s)
+            dur = max(dur, sum(x[1] for x in s if x[0] == "t") + len(s))
+        # a dynamic macro replays what was recorded, with the recorded gaps: the allowance depends on the history
+        p = text_params(kbd, extra=2 * dur if "dynamic-macro" in kbd else 0)
+        for s in scripts:
+            s.append(["t", bound_of(p) + 30])
+        jobs.append({"cfg": kbd, "params": p, "tag": "x:" + name, "scripts": scripts, "files": files})
+    return jobs
+
+
+def random_jobs(tier, rng, wd, stats):
+    ncfg = 120 if tier == "quick" else 3000
+    texts, metas = [], []
+    for i in range(ncfg):
+        d = rng.choice([1, 2, 2, 3, 3])
+        t, m = cfggen.gen_config(rng, depth=d, latch_free=True, zero_rate=0.0)
+        texts.append(t)
+        metas.append(m)
+    accd, ast = cfggen.accepted(texts, wd, "c01acc", chunk=1000)
+    stats["random_cfgs"] = {"texts": ncfg, "accepted": ast["accepted"], "rejected": ast["rejected"],
+                            "parser_panics": ast["parser_panics"] + ast["parser_aborts"]}
+    names = cfgdesc.keytable()["names"]
+    jobs, used = [], set()
+    budget = 2_000_000 if tier == "quick" else 6_000_000      # ticks per script at most (bound + history)
+    skipped = 0
+    for i, (t, m, a) in enumerate(zip(texts, metas, accd)):
+        if a is None:
+            continue
+        src = [names[k] for k in m["src"] if k in names]
+        if m["process_unmapped"]:
+            codes = sorted(set(src + [names[k] for k in ("q", "w", "lsft", "x", "1")]))
+        else:
+            codes = [c for c in src if c in a["mapped"]]
+        if not codes:
+            continue
+        dyn = "dynamic-macro" in t
+        scripts = []
+        dur = 0
+        for _ in range(2 if tier == "quick" else 3):
+            n = rng.choice([10, 30, 80]) if tier == "quick" else rng.choice([20, 60, 200, 600, 2000])
+            s = cfggen.gen_history(rng, codes, n, False, numbers=m["numbers"], floods=rng.random() < 0.3,
+                                   long_gaps=rng.random() < 0.1, focus=src or codes, tail=0)
+            scripts.append(s)
+            dur = max(dur, sum(x[1] for x in s if x[0] == "t") + len(s))
+        p = text_params(t, extra=2 * dur if dyn else 0)
+        B = bound_of(p)
+        if B + dur > budget:
+            skipped += 1
+            continue
+        for s in scripts:
+            s.append(["t", B + 30])
+        used |= set(m["used"])
+        jobs.append({"cfg": t, "params": p, "tag": "g:%d" % i, "scripts": scripts})
+    stats["random_cfgs"]["used_actions"] = len(used)
+    stats["random_cfgs"]["run"] = len(jobs)
+    stats["random_cfgs"]["skipped_over_tick_budget"] = skipped
+    return jobs, sorted(used)
+
+
 def run(tier, seed):
     res = flow.Result(PID, tier, seed)
     rng = random.Random(seed)
     wd = workdir("c01")
+    build_harness()
+    stats = new_stats()
+    t0 = time.time()
     witness_jobs = mc_part(res, tier, wd, rng)
-    return 0
+    log("[C01] model checking part: %.1fs" % (time.time() - t0))
+    parts = [("witness", witness_jobs), ("burst", burst_jobs(tier, rng)), ("extra", extra_feature_jobs(tier, rng))]
+    rj, used = random_jobs(tier, rng, wd, stats)
+    parts.append(("random", rj))
+    for label, jobs in parts:
+        if not jobs:
+            continue
+        t1 = time.time()
+        sj, errs = record(res, jobs, wd, "c01_" + label, stats)
+        handle_errs(res, sj, errs, label, wd)
+        log("[C01] %s: %d scripts, %d rejected (%.1fs)" % (label, len(sj), len(errs), time.time() - t1))
+        if label in ("burst", "random") and sj:
+            res.samples.append({"source": label, "tag": sj[0]["tag"], "cfg": sj[0]["cfg"][:600], "bound": bound_of(sj[0]["params"]),
+                                "script_head": sj[0]["scripts"][0][:24]})
+    res.extra["c01"] = stats
+    res.extra["grammar_actions_used"] = used
+    res.notes.append("features covered by recorded traces only (not in the detailed model): chords v2, defseq sequence "
+                     "modes, zippychord, caps-word, unmod/unshift, mouse movement / scroll, dynamic macros, arbitrary-code")
+    res.notes.append("cb (can_block) is observed but not judged: with live-reload requested and never served by the "
+                     "deterministic stepper it stays false by design; the statement asks for `idle`")
+    return flow.finish(
+        res, "model_checking",
+        "TLC explores L1||P_C01 for every physically consistent schedule over 2-3 keys (<=2-3 pending events, every tick "
+        "gap) on one small instance per feature and per pairwise feature combination; R2 of P_C01 (after Bound(config "
+        "text) quiet ticks: nothing pressed at the OS, no output, idle) is judged in every state with no physical key "
+        "down; every model transition is replayed on the real code; burst scripts with the real capacities, hand-written "
+        "configurations of the unmodelled features and random latch-free configurations over the whole action grammar "
+        "with random consistent histories + Bound quiet ticks are recorded from the code and validated by TLC against P_C01.",
+        assumptions=["deterministic stepper (tick_ms(1) + can_block_update_idle_waiting(1))",
+                     "latch-free configurations: virtual keys only tapped / pressed and released in balanced pairs / "
+                     "hold-for-duration",
+                     "Bound = 2*(sum of numbers in the text + 4 per macro item) + 64*(rapid-event-delay+1) + 200 "
+                     "(+ 2 x history length for dynamic macros)",
+                     "exhaustive instances bound stacked one-shots to 3 and overlapping macros to 2 (bursts go beyond on the code)"])
